@@ -68,6 +68,7 @@ fn main() {
         "C18" => rig::props::c18::main(tier, replay),
         "C13" => rig::props::c13::main(tier, replay),
         "C14" => rig::props::c14::main(tier, replay),
+        "C19" => rig::props::c19::main(tier, replay),
         "selftest" => rig::props::c03::selftest(),
         _ => {
             eprintln!("unknown property {}", prop);
